@@ -245,8 +245,8 @@ def _run_forward_slit(case, ctx):
     from pgverif.core import _h
     dg = _h([ads, mat, T, len(keep)])
     if isotherm_entry:
-        iso = pygaps.PointIsotherm(pressure=list(p), loading=list(loading), branch="ads", material="verif-c17", adsorbate="nitrogen", temperature=T, pressure_mode="relative", pressure_unit=None,
-                                   **{k: v for k, v in gen.DEFAULT_UNITS.items() if not k.startswith("pressure")})
+        iso = pygaps.PointIsotherm(pressure=list(p), loading=list(loading), branch="ads", material="verif-c17", adsorbate="nitrogen", pressure_mode="relative", pressure_unit=None,
+                                   **dict({k: v for k, v in gen.DEFAULT_UNITS.items() if not k.startswith("pressure")}, **gen.temp_kw(T)))
         a = pygaps.Adsorbate.find("nitrogen")
         M, rho = a.molar_mass(), a.liquid_density(T)
         res = _call(pm.psd_microporous, iso, psd_model="HK", pore_geometry="slit", material_model=mat_arg, adsorbate_model=dict(ads, liquid_density=rho, adsorbate_molar_mass=M), p_limits=(None, None))
@@ -448,8 +448,8 @@ def _run_routing(case, ctx):
     n = r.randint(5, 10)
     p = numpy.array(gen.increasing(r, n, 1e-6, 0.15, log=True))
     loading = numpy.cumsum(numpy.array([r.uniform(0.05, 1.0) for _ in range(n)]))
-    iso = pygaps.PointIsotherm(pressure=list(p), loading=list(loading), branch="ads", material="verif-c17", adsorbate="nitrogen", temperature=T, pressure_mode="relative", pressure_unit=None,
-                               **{k: v for k, v in gen.DEFAULT_UNITS.items() if not k.startswith("pressure")})
+    iso = pygaps.PointIsotherm(pressure=list(p), loading=list(loading), branch="ads", material="verif-c17", adsorbate="nitrogen", pressure_mode="relative", pressure_unit=None,
+                               **dict({k: v for k, v in gen.DEFAULT_UNITS.items() if not k.startswith("pressure")}, **gen.temp_kw(T)))
     a = pygaps.Adsorbate.find("nitrogen")
     adsd = dict(ads, liquid_density=a.liquid_density(T), adsorbate_molar_mass=a.molar_mass())
     res = _call(pm.psd_microporous, iso, psd_model=model, pore_geometry=geo, material_model=mat_arg, adsorbate_model=adsd, p_limits=(None, None))
